@@ -918,6 +918,23 @@ func genRecipe(t *rapid.T, thr float64) recipe {
 			r.Segs = append(r.Segs, genDocSeg(t, thr, false))
 		}
 	}
+	if lib.IntN(t, 0, 5, "hyphenThenNotice") == 0 {
+		// an unrelated word hyphenated over a line break, its remainder ending the line, then (after blank or one-word
+		// lines) a notice line or a line whose second word looks like a list marker: three traits that are each
+		// harmless and meet in the tokenizer's bookkeeping for hyphenated words
+		piece := seg{Kind: "raw", Raw: []byte(lib.PickStr(t, []string{
+			"zqpre-\nzqfix\nCopyright (c) 2020 Example Corp\n",
+			"zqpre-\nzqfix\n\nzqone\nCopyright 2019 Foo Inc.\n",
+			"zqpre-\nzqfix\n2019-03-14\n",
+			"zqpre-\nzqfix\nzqsection 2. zqfoo zqbar\n",
+			"zqpre-\r\nzqfix\r\nCopyright (c) 2020 Example Corp\r\n",
+		}, "hyphenNoticePiece"))}
+		if lib.Bool(t, "pieceFirst") {
+			r.Segs = append([]seg{piece}, r.Segs...)
+		} else {
+			r.Segs = append(r.Segs, piece)
+		}
+	}
 	if lib.IntN(t, 0, 4, "tail") == 0 {
 		r.Tail = lib.PickStr(t, []string{"a", "2", "b", "x", "end", "v2", "it", "\u00e9", "License"}, "tailWord")
 	}
